@@ -27,6 +27,7 @@ ANCHORS = [
     "sptensor:sptensor._set_subscripts", "sptensor:sptensor._set_subtensor", "sptensor:sptensor.extract", "sptensor:sptensor.subdims",
     "pyttb_utils:tt_renumber", "pyttb_utils:tt_irenumber", "pyttb_utils:tt_ind2sub",
 ]
+THOROUGH_PASSES = 2     # the thorough generator of this property is already minutes long
 WATCHDOG = {"quick": 900, "thorough": 3400}
 VALS = [0.0, 0.0, 1.0, 2.0, -1.0, 3.5, 7.0]
 
